@@ -16,10 +16,11 @@
         probe:   (r c)          write: (r c x)
         result:  (2)                             partition panicked
                  (1 ((n0 rows) (n1 cols)))       a tensor wrapper was refused (InvalidShapeError)
-                 (0 ((rows cols) (p ...) (p ...) (o ...) (x ...)))
+                 (0 ((rows cols) (p ...) (p ...) (o ...) (x ...) (L Lref)))
                     size; per probe p = () absent | (x) present | (0 0) panic; the view's
                     row_major_iter as p's; per write o = 0 written / 2 panicked (MatrixView::set);
-                    the root's data afterwards
+                    the root's data afterwards; data_layout() of the view itself and as answered
+                    through `&S` / `&mut S`: 0 RowMajor 1 ColumnMajor 2 Other 3 the call panicked
      (12 2 rows cols (data) (rp) (cp))                   matrix.partition(&rp, &cp)
      (12 3 rows cols (data) r c)                         matrix.partition_quadrants(r, c)
         result:  (2)  or  (0 ((part ...) (x ...)))   part = ((rows cols) (p ...)) listing all its
@@ -37,7 +38,7 @@
         result:  (1 error) | (2) first failing tensor constructor (payloads of Model/Views.v), then
                  as for (12 1 ...) *)
 From Coq Require Import List ZArith NArith Bool.
-From EasyML Require Import Base.Sx Model.Shape Model.Matrix Model.MatrixViews Run.RunC11.
+From EasyML Require Import Base.Sx Model.Shape Model.Matrix Model.MatrixViews Model.MatrixHistory Run.RunC11.
 From EasyML Require Model.Views Run.RunC02.
 Import ListNotations.
 Open Scope N_scope.
@@ -137,6 +138,9 @@ Fixpoint do_writes (data : list Z) (v : mview) (ws : list (N * N * Z)) : list bo
 
 Definition sflag (b : bool) : sx := SZ (if b then 0 else 2)%Z.
 
+Definition slayout (l : mlayout) : sx :=
+  SZ (match l with LRowMajor => 0 | LColumnMajor => 1 | LOther => 2 | LPanics => 3 end)%Z.
+
 Definition c12_view (data : list Z) (leaf : outcome mview) (ws : list wrapper)
            (probes : list (N * N)) (writes : list (N * N * Z)) : sx :=
   soutcome (fun v =>
@@ -145,7 +149,8 @@ Definition c12_view (data : list Z) (leaf : outcome mview) (ws : list wrapper)
          probe_all data v probes;
          probe_all data v (grid (view_rows v) (view_cols v));
          slist sflag os;
-         slist SZ final ])
+         slist SZ final;
+         SL [slayout (data_layout v); slayout (data_layout_through_reference v)] ])
     (obind leaf (fun v => apply_wrappers v ws)).
 
 (* overwrite every cell of part k with 1000 + k *)
@@ -206,11 +211,11 @@ Definition run_c12 (args : list sx) : sx :=
       | _, _, _, _, _ => bad_case
       end
   | [SZ 5%Z; start; ops; rp; cp] =>
-      match dstart start, dlist dop ops, dlist dN rp, dlist dN cp with
+      match dstart start, dlist dxop ops, dlist dN rp, dlist dN cp with
       | Some first, Some ops, Some rp, Some cp =>
           match first with
           | Ok m0 =>
-              let m := fold_left (fun s o => fst (impl_step s o)) ops m0 in
+              let m := fold_left (fun s o => fst (xstep s o)) ops m0 in
               SL [SZ 0; SL [SL [sN (m_rows m); sN (m_cols m)];
                             c12_parts (m_data m) (partition (m_rows m) (m_cols m) rp cp)]]
           | _ => SL [SZ 3]
